@@ -741,7 +741,7 @@ def o2oParam (refLts : List TS) : IParam :=
 /-- the type's parameters plus the counterpart-only lifetimes (`missing_lt` loop of the code, as written) -/
 def withMissingLifetimes (params0 : List IParam) (thoseLts : List TS) : List IParam :=
   thoseLts.foldl (fun ps lt =>
-    let missing := ps.all fun prm => if prm.isLifetime then !(prm.name == lt) else false
+    let missing := ps.all fun prm => if prm.isLifetime then !(prm.name == lt) else true
     if missing then pushParam ps { isLifetime := true, name := lt, full := lt, punct := false } else ps) params0
 
 /-- the generic parameter list declared on the impl -/
@@ -768,9 +768,10 @@ def getQuoteTraitParams (input : DataType) (ctx : ImplContext) : QuoteTraitParam
       | none => []
     r := if ctx.kind.isRef then (if refLts.isEmpty then [p '&'] else [p '&'] ++ lifetimeTS "o2o") else [] }
 
+/-- `quote_err_ty`: the declared error type, generic arguments included -/
 def errTyPath (ctx : ImplContext) : E TS :=
   match ctx.structAttr.errTy with
-  | some t => .ok t.path
+  | some t => .ok (t.path ++ (match t.generics with | some g => g.toTS | none => []))
   | none => panicAt "expand.rs:quote_try_*_trait:err_ty unwrap"
 
 /-- the hole environment shared by the six skeletons (`QuoteTraitParams` destructured) -/
